@@ -205,7 +205,23 @@ func (a *archetype) Set(index uint32, id ID, comp interface{}) unsafe.Pointer {
 
 	src := rValue.UnsafePointer()
 	a.copy(src, dst, size)
+	// The bytes behind comp were copied into heap storage without the compiler seeing it.
+	// Mark comp as escaping, so that nothing it points to lives on the caller's stack.
+	escapes(comp)
 	return dst
+}
+
+// escapes marks x as escaping to the heap, for the compiler's escape analysis.
+// The assignment is never executed.
+func escapes(x interface{}) {
+	if escapeSink.b {
+		escapeSink.x = x
+	}
+}
+
+var escapeSink struct {
+	b bool
+	x interface{}
 }
 
 // SetPointer overwrites a component with the data behind the given pointer
